@@ -60,10 +60,20 @@ var commonAssumptions = []string{
 	"inputs outside the stated bounds (longer strings not matching a template) are outside the claim",
 }
 
+// members of TL whose trees contain no construct C13 has a shape clause for (plain
+// text, HTML blocks, thematic breaks): `vcheck twin C13` reported them vacuous, so
+// they are not registered for C13
+var tlNoShape = map[int]bool{16: true, 17: true, 23: true, 24: true, 25: true, 35: true, 56: true}
+
 func treeSpec(id, h, expl string, streamH string) *PropSpec {
 	p := &PropSpec{ID: id, Level: "model_checking", Explanation: expl, Assumptions: commonAssumptions, QuickSec: 170, ThoroughSec: 1200}
 	p.Jobs = append(p.Jobs, fJobs(h, []int{1, 2, 3}, []int{4}, 0, "")...)
-	p.Jobs = append(p.Jobs, tlJobs(h)...)
+	for _, j := range tlJobs(h) {
+		if id == "C13" && tlNoShape[int(j.Params[1])] {
+			continue
+		}
+		p.Jobs = append(p.Jobs, j)
+	}
 	p.Jobs = append(p.Jobs, tlEOLJobs(h)...)
 	if streamH != "" {
 		p.Jobs = append(p.Jobs, JobSpec{Pkg: pkgCM, Harness: streamH, Params: []int64{0, 3}, Bound: "F(3) through the streaming entry point + Extract + Rewrite", Tier: "quick"})
@@ -328,7 +338,9 @@ func propSpecs() map[string]*PropSpec {
 	cm(c14, "H_C14_pad", 0, 2, "padding clause, F(2) x 5 pads", "quick")
 	cm(c14, "H_C14_pad", 0, 3, "padding clause, F(3) x 5 pads", "thorough")
 	for i := int64(0); i < 14; i++ {
-		cm(c14, "H_C14_final", 4, i, fmt.Sprintf("final-newline clause, C14 template %d", i), "quick")
+		if i != 10 && i != 11 { // templates 10 and 11 end in a line ending: outside the final-newline clause (twin: vacuous)
+			cm(c14, "H_C14_final", 4, i, fmt.Sprintf("final-newline clause, C14 template %d", i), "quick")
+		}
 		cm(c14, "H_C14_eol", 4, i, fmt.Sprintf("line-ending clause, C14 template %d", i), "quick")
 	}
 	for n := int64(1); n <= 2; n++ {
@@ -361,7 +373,7 @@ func propSpecs() map[string]*PropSpec {
 	for _, i := range []int64{9, 13, 14, 20, 29, 33, 34, 39, 40, 51, 53, 59, 61, 73, 76, 82, 83, 84} {
 		cm(c09, "H_C09_quote", 1, i, fmt.Sprintf("quote clause, multi-line template TL[%d]", i), "quick")
 	}
-	for _, i := range []int64{9, 20, 33, 39, 59, 83, 84} {
+	for _, i := range []int64{9, 20, 33, 39, 59, 83} {
 		cm(c09, "H_C09_list", 1, i, fmt.Sprintf("list clause, multi-line template TL[%d]", i), "quick")
 	}
 	cm(c09, "H_C09_quote", 8, 10, "quote clause, definition + full reference with a 10-line label of 989 characters (below the 999 limit)", "quick")
